@@ -187,6 +187,15 @@ func (w *Watcher) Run(ctx context.Context) error {
 		return fmt.Errorf("creating block poll connector failed: %w", err)
 	}
 
+	// The block poller starts disabled and is enabled when a message becomes pending. When the watcher is
+	// restarted after an error, messages that were already pending are still waiting for their confirmations:
+	// keep polling for them, otherwise they would sit there until some unrelated message arrives.
+	w.pendingMu.Lock()
+	if len(w.pending) > 0 {
+		w.ethConn.EnablePoller()
+	}
+	w.pendingMu.Unlock()
+
 	// Subscribe to new message publications. We don't use a timeout here because the LogPollConnector
 	// will keep running. Other connectors will use a timeout internally if appropriate.
 	messageC := make(chan *abi.AbiLogMessagePublished, 2)
